@@ -4,7 +4,7 @@ P=$1; shift
 cd /repo
 if [ -n "$(git status --porcelain -- src)" ]; then echo "repo/src dirty, abort"; exit 3; fi
 if [[ "$P" == -R:* ]]; then git show ${P#-R:} -- src | git apply -R || { echo "cannot reverse-apply"; exit 3; }
-else git apply "$P" || { echo "cannot apply"; exit 3; }; fi
+else git apply "$P" || { echo "cannot apply (rebase the patch in a scratch worktree first)"; exit 3; }; fi
 trap "git -C /repo checkout -- src" EXIT
 cd /verif
 for id in "$@"; do ./check $id --tier ${TIER:-quick} 2>&1 | grep -E "VIOLATION|KNOWN|INFRA|tier=|^\S+:[0-9]+: \[" | cut -c1-260; done
